@@ -313,6 +313,7 @@ static bool frames_ok(Theo::VM &vm, std::string &why) {
 }
 
 static void prop_c19(Tape &t, Result &r) {
+  long reset_at = t.chance(1, 3) ? (long)t.pick(400) : -1;  // high-level choice first (see tape.hpp)
   gp::GenCfg cfg;
   cfg.user_macros = t.chance(1, 4);
   cfg.force_call_in_loop = t.chance(1, 2);
@@ -328,7 +329,20 @@ static void prop_c19(Tape &t, Result &r) {
   size_t maxwords = 0;
   size_t prev_depth = 0;
   std::string why;
+  // "every point of every execution" includes executions that follow a reset: one case in three resets the
+  // machine once at a position drawn from the tape (often inside a callee) and keeps checking
+  bool did_reset = false;
   for (long i = 0; i < 30000 && !vm.isDone(); i++) {
+    if (i == reset_at) {
+      if (vm.getActivations().size() >= 2) r.cls("reset-inside-callee");
+      vm.reset();
+      did_reset = true;
+      prev_depth = 0;
+      if (!frames_ok(vm, why)) {
+        r.fail("mem:frame-accounting", "right after reset() at instruction " + std::to_string(i) + ": " + why);
+        return;
+      }
+    }
     vm.executeSingle();
     size_t d = vm.getActivations().size();
     if (d < prev_depth) returns++;
@@ -343,6 +357,7 @@ static void prop_c19(Tape &t, Result &r) {
   if (vm.isDone()) r.cls("run:finished");
   if (returns >= 3) r.cls("run:>=3-returns");
   if (returns >= 20) r.cls("run:>=20-returns");
+  if (did_reset) r.cls("run:with-reset");
   r.nontrivial = returns >= 3;
 }
 static Reg reg_c19({"C19", 500, prop_c19, nullptr, nullptr});
